@@ -185,9 +185,9 @@ func c05Specs() []*bfsSpec {
 			}
 		}
 		for _, pc := range []uint32{0, 1, 2, 3, 6} {
-			for _, ts := range []uint32{20000, 100000} {
+			for _, ts := range []uint32{20000, 100000, 0} { // 0: no total_size key
 				for _, l := range []int{16384, 3616} {
-					al = append(al, fmt.Sprintf("raw:0:%s", hexFrame(rc.Msg{Kind: rc.ExtMetadata, ID: 2, MsgType: 1, MPiece: pc, TotalSize: ts, HasTotal: true, Data: bytes.Repeat([]byte{0x4D}, l)})))
+					al = append(al, fmt.Sprintf("raw:0:%s", hexFrame(rc.Msg{Kind: rc.ExtMetadata, ID: 2, MsgType: 1, MPiece: pc, TotalSize: ts, HasTotal: ts != 0, Data: bytes.Repeat([]byte{0x4D}, l)})))
 				}
 			}
 		}
